@@ -26,6 +26,7 @@ Step == /\ bad = "" /\ l <= Len(T.ev)
 End == /\ bad = "" /\ l = Len(T.ev) + 1
        /\ bad' = FirstFail(<<
                    <<"PinPolicy", PinHeldP(T, obs, T.fin_pin)>>,
+                   <<"InputError", InputErrorP(obs, T.outcome)>>,
                    <<"Carried", CarriedP(T, obs, T.outcome)>>,
                    <<"WriteError", WriteErrorP(T, T.outcome)>>,
                    <<"PubkeysWritten", PubkeysWrittenP(T, T.outcome, T.files, T.expect)>> >>)
